@@ -89,12 +89,14 @@ class Baton:
 
     phase_fn(frame) -> str   labels the position of thread T (called with T's current frame) when T is pre-empted,
                              and for every T event when profile=True (then `t_phases` holds one label per T event).
+    call_fn(frame)           called for every function thread T enters (any file), e.g. to track which callee of the tick
+                             is running without depending on the source text of the caller.
     """
 
     WAIT_S = 60.0
 
     def __init__(self, switches, prefix: str, phase_fn: Callable[[Any], str] | None = None, profile: bool = False,
-                 max_events: int = 400_000, locks: tuple = ()):
+                 max_events: int = 400_000, locks: tuple = (), call_fn: Callable[[Any], None] | None = None):
         sw = [int(s) for s in switches]
         if sw != sorted(sw) or any(s < 0 for s in sw):
             raise ValueError("switch positions must be a sorted list of non-negative ints")
@@ -104,6 +106,7 @@ class Baton:
         self.profile = profile
         self.max_events = max_events
         self.locks = locks
+        self.call_fn = call_fn                       # called with the new frame for every function entered by thread T
         self.n = 0                                   # next global event index
         self.count = {"T": 0, "R": 0}                # events per thread
         self._sw_i = 0
@@ -192,7 +195,11 @@ class Baton:
                     raise _Abort()
             return local
 
+        call_fn = self.call_fn if is_t else None
+
         def glob(frame, event, arg):
+            if call_fn is not None:
+                call_fn(frame)
             if frame.f_code.co_filename.startswith(prefix):
                 return local
             return None
